@@ -33,7 +33,7 @@ const c11Shared = `(do
   (def spin (fn [n] (if (> n 0) (spin (- n 1)) nil)))
   nil)`
 
-var c11Locals = []string{"a", "b", "c", "e", "x", "v", "n", "acc", "r", "f", "k"}
+var c11Locals = []string{"a", "b", "c", "e", "x", "v", "n", "acc", "r", "f", "k", "tmp", "tmp2"}
 
 // fragment templates: T = thread prefix ("t3"), N = thread-specific integer
 var c11Templates = []struct {
@@ -73,6 +73,17 @@ var c11Templates = []struct {
 	{"update", `(update {:a 1} :a (fn [v] (+ v N)))`},
 	{"vec-ops", `(let [v (vec (list 1 2 N))] (list (count v) (first v) (nth v 2) (rest v)))`},
 	{"gensym", `(let [a (gensym) b (gensym)] (if (= a b) :same :distinct))`},
+	// a def inside a function body binds in the scope of that call: a temporary, not a global
+	{"thunk-def-local", `((fn [] (do (def tmp N) (spin 3) (+ tmp 1))))`},
+	{"future-def-local", `@(future (do (def tmp N) (spin 3) (def tmp2 (+ tmp 1)) (spin 2) (list tmp tmp2)))`},
+	{"fn-def-local", `(do (def T-g (fn [x] (do (def tmp (+ x N)) (spin 2) tmp))) (list (T-g 1) (T-g 2)))`},
+	// a future started in a non-final binding of a let: its body reads the scope while later bindings are written
+	{"future-mid-let", `(let [a N f (future (do (spin 2) (+ a 1))) b (+ a 2) c (+ b 3) v (+ c 4)] (list @f b c v))`},
+	{"future-mid-let2", `(let [f (future (spin 4)) a N b (list a a) c (count b)] (do @f (list a b c)))`},
+	{"map-builtin-fn", `(list (map inc [1 2 N]) (map (fn [x] (* x N)) (list 1 2)))`},
+	{"memoize-shared-arg", `(do (def T-mm (memoize (fn [x] (* x N)))) (list (T-mm 2) (T-mm 3) (T-mm 2)))`},
+	{"update-in", `(update-in {:a {:b N}} [:a :b] (fn [v] (+ v 1)))`},
+	{"sleepless-deref", `(let [f (future N) r (future (+ N 1))] (list @f @r @f))`},
 }
 
 type c11Prog struct {
